@@ -57,7 +57,7 @@ let facts_file file implfile brute_max =
       if c.algo = Fuzzy then Printf.printf " dp=%d" (b (dp_taken c.cfg c.hs c.ns));
       (if c.algo = Fuzzy && n <> [] && List.length h * List.length n <= 150000 && List.length h <= 3000 then
          Printf.printf " naive=%s" (match naive_score c.cfg hr h n with None -> "-" | Some s -> string_of_int (int_of_n s)));
-      if List.length h <= brute_max && n <> [] then
+      if (List.length h <= brute_max || (List.length n = 1 && List.length h <= 3000)) && n <> [] then
         Printf.printf " best=%s" (match best_score c.cfg hr h n with None -> "-" | Some s -> string_of_int (int_of_n s));
       print_newline ()
     end);
